@@ -20,6 +20,8 @@ func verifCount(site string) { verifhook.Count(site) }
 
 func verifActivity() { verifhook.Activity() }
 
+func verifBusy(d int64) { verifhook.Busy(d) }
+
 func verifWrapGo(cb func()) func() { return verifhook.WrapGo(cb) }
 
 var verifEvictPending sync.Map // *Cache -> *atomic.Int64
@@ -73,6 +75,9 @@ func (c *Cache) VerifSetUnsubscribeDelay(d time.Duration) { c.unsubscribeDelay =
 func (c *Cache) VerifIdle() bool {
 	c.mu.Lock()
 	defer c.mu.Unlock()
+	if len(c.inCh) > 0 {
+		return false
+	}
 	for _, e := range c.eventSubs {
 		e.mu.Lock()
 		busy := len(e.queue) > 0 || e.locks != nil
